@@ -10,6 +10,7 @@ import Driver.C04
 import Driver.C11
 import Driver.C14
 import Driver.C06
+import Driver.C15
 import Driver.C17
 import Driver.C19
 /-!
@@ -31,6 +32,7 @@ def dispatch (j : Json) : Json :=
   | "C04" => Driver.C04.handle j
   | "C11" => Driver.C11.handle j
   | "C14" => Driver.C14.handle j
+  | "C15" => Driver.C15.handle j
   | "C17" => Driver.C17.handle j
   | "C19" => Driver.C19.handle j
   | "C08" => Driver.C09.handle j
